@@ -123,6 +123,10 @@ pub enum REv {
     Fail(ErrSpec),
     /// Return `Ok(0)` although data may be left (truncated stream).
     Eof,
+    /// A legal but unusual reader: inside `read` it first hashes something
+    /// else through `ssdeep::hash_stream` on the same thread (an
+    /// archive-style reader fingerprinting a member), then delivers n bytes.
+    Reenter(u32),
 }
 
 impl REv {
@@ -131,12 +135,14 @@ impl REv {
             REv::Deliver(n) => J::u(*n as u64),
             REv::Fail(e) => J::obj(vec![("fail", e.to_json())]),
             REv::Eof => J::s("eof"),
+            REv::Reenter(n) => J::obj(vec![("reenter", J::u(*n as u64))]),
         }
     }
     pub fn from_json(j: &J) -> Result<REv, String> {
         match j {
             J::Int(_) => Ok(REv::Deliver(j.u64_().ok_or("bad deliver")? as u32)),
             J::Str(s) if s == "eof" => Ok(REv::Eof),
+            J::Obj(_) if j.get("reenter").is_some() => Ok(REv::Reenter(j.gu("reenter")? as u32)),
             J::Obj(_) => Ok(REv::Fail(ErrSpec::from_json(j.get("fail").ok_or("bad fail")?)?)),
             _ => Err("bad read event".into()),
         }
@@ -164,6 +170,10 @@ pub struct ReadTrace {
     pub clipped: usize,
     /// Chunk sizes actually delivered (the twin generator is fed the same way).
     pub chunks: Vec<usize>,
+    /// Number of nested hash_stream calls made from inside `read`.
+    pub reentered: usize,
+    /// Reads that offered an empty buffer (they return Ok(0) without meaning EOF).
+    pub empty_buffer_reads: usize,
 }
 
 /// A scripted reader over a byte string.
@@ -185,11 +195,21 @@ pub struct SimReader<'a> {
     pub trace: ReadTrace,
     pub cap: usize,
     pub runaway: bool,
+    /// After the script is exhausted deliveries are capped to this many
+    /// bytes per read (0 = unlimited): a byte-at-a-time style reader for the
+    /// whole stream without a script of that length.
+    pub tail: u32,
 }
 
 impl<'a> SimReader<'a> {
+    pub fn with_tail(mut self, tail: u32) -> Self {
+        self.tail = tail;
+        let _ = tail;
+        self
+    }
     pub fn new(data: &'a [u8], script: &'a [REv], scribble: bool, sticky: bool) -> Self {
         SimReader {
+            tail: 0,
             data,
             pos: 0,
             script,
@@ -197,7 +217,8 @@ impl<'a> SimReader<'a> {
             scribble,
             sticky,
             trace: ReadTrace::default(),
-            cap: script.len() + data.len() / 16384 + 64,
+            // any reader loop that makes progress needs at most one call per byte
+            cap: script.len() + data.len() + 64,
             runaway: false,
         }
     }
@@ -231,16 +252,32 @@ impl Read for SimReader<'_> {
             let e = self.script[self.idx].clone();
             self.idx += 1;
             e
+        } else if self.tail > 0 {
+            REv::Deliver(self.tail)
         } else {
             REv::Deliver(u32::MAX)
         };
+        let ev = match ev {
+            REv::Reenter(n) => {
+                // nested use of the library from inside a read callback
+                let inner: [u8; 64] = [0x5a; 64];
+                let mut r: &[u8] = &inner[..];
+                let _ = ssdeep::hash_stream(&mut r);
+                self.trace.reentered += 1;
+                REv::Deliver(n)
+            }
+            e => e,
+        };
         match ev {
+            REv::Reenter(_) => unreachable!(),
             REv::Deliver(n) => {
                 let left = self.data.len() - self.pos;
                 let mut k = (n as usize).min(left);
                 if k > buf.len() {
                     k = buf.len();
-                    self.trace.clipped += 1;
+                    if n != u32::MAX {
+                        self.trace.clipped += 1;
+                    }
                 }
                 if (n as usize) > buf.len() && left > buf.len() {
                     // request larger than buffer: counted above
@@ -254,7 +291,10 @@ impl Read for SimReader<'_> {
                     }
                 }
                 self.pos += k;
-                if k == 0 {
+                if k == 0 && buf.is_empty() {
+                    // Ok(0) for an empty buffer says nothing about the end of the stream
+                    self.trace.empty_buffer_reads += 1;
+                } else if k == 0 {
                     self.terminal(Ok(()));
                 } else if self.trace.terminal.is_none() {
                     self.trace.delivered += k;
@@ -282,6 +322,7 @@ pub struct FileSpec {
     pub script: Vec<REv>,
     pub scribble: bool,
     pub sticky: bool,
+    pub tail: u32,
 }
 
 impl FileSpec {
@@ -292,6 +333,7 @@ impl FileSpec {
             ("script", J::Arr(self.script.iter().map(|e| e.to_json()).collect())),
             ("scribble", J::Bool(self.scribble)),
             ("sticky", J::Bool(self.sticky)),
+            ("tail", J::u(self.tail as u64)),
         ])
     }
     pub fn from_json(j: &J) -> Result<FileSpec, String> {
@@ -308,7 +350,14 @@ impl FileSpec {
         for e in j.ga("script")? {
             script.push(REv::from_json(e)?);
         }
-        Ok(FileSpec { open, meta, script, scribble: j.gb("scribble")?, sticky: j.gb("sticky")? })
+        Ok(FileSpec {
+            open,
+            meta,
+            script,
+            scribble: j.gb("scribble")?,
+            sticky: j.gb("sticky")?,
+            tail: j.get("tail").and_then(|x| x.u64_()).unwrap_or(0) as u32,
+        })
     }
 }
 
@@ -360,8 +409,9 @@ pub fn run_hash_file(data: &[u8], spec: &FileSpec) -> FileRun {
                     scribble: self.spec.scribble,
                     sticky: self.spec.sticky,
                     trace: std::mem::take(&mut self.trace),
-                    cap: script.len() + self.data.len() / 16384 + 64,
+                    cap: script.len() + self.data.len() + 64,
                     runaway: self.runaway,
+                    tail: self.spec.tail,
                 };
                 let r = rd.read(buf);
                 self.pos = rd.pos;
